@@ -383,7 +383,7 @@ static void record(uint64_t seed, long nhist, long nsteps, FILE *out) {
             int plen = (int)rng.below(4);
             if (plen == 3 && rng.below(2)) plen = 1;
             for (int i = 0; i < plen; ++i) path.push_back(rng.below(2) ? 1 + rng.below(4) : -(long)(1 + rng.below(3)));
-            if (!path_in_contract(m.root[r - 1], path)) { --s; if (rng.below(50) == 0) m.root[r - 1].Compress(); continue; }
+            if (!path_in_contract(m.root[r - 1], path)) { --s; continue; }   // (every operation that is applied is logged)
             std::string jp;
             vf::json_ints(jp, path);
             uint32_t    op = rng.below(100);
